@@ -34,7 +34,9 @@ CLUSTERS = {
                            "nm_as_list", "nm_maps", "nm_maps"], "w": 3},
     "generic": {"types": ["GInt", "GBool", "GStr", "GListInt", "PairIntStr", "PairStrInt", "PairBoolStr", "ListInt", "listInt",
                           "SeqInt", "UIntStr", "UStrInt", "ListingA", "ListingB"], "recipes": ["plain", "chain_int_last"], "w": 1},
-    "modules": {"types": ["ListingA", "ListingB"], "recipes": ["plain"], "w": 1},
+    "modules": {"types": ["ListingA", "ListingB", "MBoxA", "MBoxB"], "recipes": ["plain"], "w": 1},
+    "tuples": {"types": ["TupIntStr", "TupBoolStr", "TupListDict", "TupLit01", "TupLitFT", "TupIntEll", "TNode", "TupInt"],
+               "recipes": ["plain"], "w": 1},
     "unions": {"types": ["UM1M3", "UM3M1", "ULM1LM2", "ULM2LM1", "UDM1DM2", "UDM2DM1", "UDupAB", "UDupBA", "UIntStr", "UStrInt",
                          "OptInt", "UIntNone", "PipeIntNone"], "recipes": ["plain"], "w": 1},
 }
@@ -107,6 +109,12 @@ def gen_conv_program(rng, n_ops, first=None):
     return prog
 
 
+CALL_RACE_TYPES = ["TupIntStr", "TupBoolStr", "TupListDict", "TupLit01", "TupInt", "TNode", "ListInt", "SetInt", "DequeInt",
+                   "ListListInt", "DictStrInt", "DictStrListInt", "DDictStrInt", "MapStrListInt", "UIntStr", "UListIntStr",
+                   "ULM1LM2", "OptListInt", "Lit01", "LitA1", "Color", "Perm", "bytes", "bytearray", "Decimal", "M1", "Node",
+                   "WithDefaults", "NT", "TD", "AT", "GListInt", "PairIntStr", "ListM1", "DictStrM1", "TupIntEll", "FSetInt"]
+
+
 def gen_policy(rng, n_threads):
     r = rng.random()
     if r < 0.35:
@@ -165,13 +173,37 @@ def gen(seed, cfg=None):
         first = gen_program(rng, cluster, 1, about=about)[0] if same_first else None
         programs = [gen_program(rng, cluster, rng.choice([1, 1, 2, 3, 4]), first, about) for _ in range(n_threads)]
     prologue = []
-    if cluster != "conv" and rng.random() < 0.3:
+    if cluster != "conv" and rng.random() < 0.15:
+        # call race: the loader / dumper exists already (warm retort), the threads only *call* it, so every
+        # preemption lands in load-time code (closures of the non-model providers, generated model code)
+        t = rng.choice([x for x in CALL_RACE_TYPES if x in pools.TYPES])
+        cluster = "callrace"
+        handle["recipe"] = "plain"
+        if "opts" in handle:
+            handle["opts"]["debug_trail"] = rng.choice(["DISABLE", "DISABLE", "FIRST", "ALL"])
+        if rng.random() < 0.7:
+            prologue = [{"op": "load", "h": 0, "t": t, "d": pools.battery(t)[0]}]
+            programs = [[{"op": "load", "h": 0, "t": t, "d": rng.choice(pools.battery(t)[:4])} for _ in range(rng.choice([1, 2, 3]))]
+                        for _ in range(n_threads)]
+        else:
+            prologue = [{"op": "dump", "h": 0, "t": t, "o": pools.dump_battery(t)[0]}]
+            programs = [[{"op": "dump", "h": 0, "t": t, "o": rng.choice(pools.dump_battery(t))} for _ in range(rng.choice([1, 2, 3]))]
+                        for _ in range(n_threads)]
+    elif cluster != "conv" and rng.random() < 0.3:
         # the retort is already warm for something else when the threads start racing
         prologue = [op for op in gen_program(rng, cluster, rng.choice([1, 2]), about=about) if op["op"] in ("load", "dump")]
     scn = {
         "engine": "schedsim", "seed": seed, "cluster": cluster, "handle": handle, "prologue": prologue, "threads": programs,
         "policy": gen_policy(rng, n_threads), "norm_cache": rng.choice([1, 2, 8, 128, 128]),
     }
+    if cluster == "callrace":
+        r = rng.random()
+        if r < 0.5:
+            scn["policy"] = {"kind": "sweep1", "t": rng.randrange(n_threads), "mode": "uniform", "frac": rng.random()}
+        elif r < 0.75:
+            scn["policy"] = {"kind": "walk", "seed": rng.getrandbits(32), "p": rng.choice([1 / 5, 1 / 20, 1 / 50])}
+        else:
+            scn["policy"] = {"kind": "rr", "q": rng.choice([1, 2, 3, 7])}
     if (cfg or {}).get("instr_share", 0) > 0 and rng.random() < cfg["instr_share"]:
         scn["granularity"] = "instr"    # opcode-level preemption inside the hot files
     return scn
